@@ -378,6 +378,130 @@ example : (⟨19, .number 1000, 0, some 128⟩ : BlockRequestMessage).wf := by
   · intro k hk; cases hk; decide
   · intro b hb; cases hb
 
+/-! ### BlockResponseMessage (block.go `blockDataToProtobuf` / `protobufToBlockData`) -/
+
+/-- values a Go `types.BlockData` of a response holds and the Go decoder reads back: a 32-byte
+    hash, a header of the Go type without a compact leaf in [2^32, 2^56) (finding uint-5to7),
+    extrinsics of lengths a Go slice can have -/
+def BlockDataM.wf (d : BlockDataM) : Prop :=
+  d.hash.length = 32 ∧
+  (∀ h, d.header = some h → wtc goHeader h = true ∧ leavesOk C11.okLeaf C11.okLen goHeader.toTy h = true) ∧
+  (∀ es, d.body = some es → es.length < 4294967296 ∧ ∀ e ∈ es, e.length < maxBytesLen)
+
+theorem unmarshal_goHeader_nil : unmarshal goHeader [] = none := by decide
+
+theorem marshal_goHeader_ne_nil (h : Val) (hw : wtc goHeader h = true)
+    (hq : leavesOk C11.okLeaf C11.okLen goHeader.toTy h = true) : marshal goHeader h ≠ [] := by
+  intro e
+  have := C14_roundtrip_go_partial goHeader h [] hw hq
+  rw [e, List.append_nil, unmarshal_goHeader_nil] at this
+  cases this
+
+theorem flatten_encP (es : List Bytes) :
+    (es.map (fun e => C11.encP .bytes (.bytes e))).flatten =
+      encList (encode C11.codec (.prim .bytes)) (es.map Val.bytes) := by
+  induction es with
+  | nil => rfl
+  | cons e es ih => simp only [List.map_cons, List.flatten_cons, encList, ih]; rfl
+
+theorem map_bytesOfVal (es : List Bytes) : (es.map Val.bytes).map bytesOfVal = es := by
+  induction es with
+  | nil => rfl
+  | cons e es ih => simp [bytesOfVal, ih]
+
+theorem bodyOfEncoded_roundtrip (es : List Bytes) (hl : es.length < 4294967296)
+    (he : ∀ e ∈ es, e.length < maxBytesLen) :
+    bodyOfEncoded (es.map (fun e => C11.encP .bytes (.bytes e))) = some es := by
+  have h64 : es.length < 2 ^ 64 := by
+    have : (2:Nat) ^ 64 = 18446744073709551616 := by decide
+    omega
+  have h67 : es.length < 256 ^ 67 := lt_pow67 (by decide : 8 ≤ 67) (by rw [C11.pow256_8]; omega)
+  have enc_eq : C11.encodeBigInt es.length ++ (es.map (fun e => C11.encP .bytes (.bytes e))).flatten =
+      C11.marshal (.seq (.prim .bytes)) (.list (es.map Val.bytes)) := by
+    rw [flatten_encP, C11.C11_encodeBigInt_canonical _ h67, ← C11.C11_encodeUint_canonical _ h64]
+    simp [C11.marshal, encode, C11.codec]
+  have hw : wt (.seq (.prim .bytes)) (.list (es.map Val.bytes)) = true := by
+    simp only [wt, List.length_map, Bool.and_eq_true, decide_eq_true_eq, List.all_eq_true, List.mem_map]
+    refine ⟨by unfold maxSeqLen; omega, ?_⟩
+    rintro x ⟨e, hm, rfl⟩
+    simpa [Prim.kind, wtKind] using he e hm
+  have hq : leavesOk C11.okLeaf C11.okLen (.seq (.prim .bytes)) (.list (es.map Val.bytes)) = true := by
+    simp only [leavesOk, List.length_map, Bool.and_eq_true, List.all_eq_true, List.mem_map]
+    refine ⟨?_, ?_⟩
+    · simp only [C11.okLen, C11.uintOk, Bool.or_eq_true, decide_eq_true_eq]; left; omega
+    · rintro x ⟨e, _, rfl⟩; rfl
+  have rt := C11.C11_roundtrip_partial _ _ [] hw hq
+  rw [List.append_nil] at rt
+  simp only [bodyOfEncoded, List.length_map]
+  rw [enc_eq, rt]
+  simp only [map_bytesOfVal]
+
+theorem optOfBytes_getD (o : Option Bytes) : optOfBytes (o.getD []) = if o = some [] then none else o := by
+  cases o with
+  | none => rfl
+  | some b => cases b <;> simp [optOfBytes]
+
+theorem headerOfPb_toPb (hdr : Option Val)
+    (h : ∀ x, hdr = some x → wtc goHeader x = true ∧ leavesOk C11.okLeaf C11.okLen goHeader.toTy x = true) :
+    headerOfPb (headerToPb hdr) = some hdr := by
+  cases hdr with
+  | none => rfl
+  | some x =>
+    have ⟨hw, hq⟩ := h x rfl
+    have rt := C14_roundtrip_go_partial goHeader x [] hw hq
+    rw [List.append_nil] at rt
+    simp only [headerOfPb, headerToPb, marshal_goHeader_ne_nil x hw hq, if_false, rt]
+
+theorem bodyOfPb_toPb (bdy : Option (List Bytes))
+    (h : ∀ es, bdy = some es → es.length < 4294967296 ∧ ∀ e ∈ es, e.length < maxBytesLen) :
+    bodyOfPb (bodyToPb bdy) = some (if bdy = some [] then none else bdy) := by
+  cases bdy with
+  | none => rfl
+  | some es =>
+    cases es with
+    | nil => rfl
+    | cons e es =>
+      have ⟨hl, he⟩ := h (e :: es) rfl
+      simp only [bodyOfPb, bodyToPb]
+      rw [bodyOfEncoded_roundtrip (e :: es) hl he]
+      simp
+
+theorem justOfPb_toPb (js : Option Bytes) : justOfPb (js.getD []) (js == some []) = js := by
+  cases js with
+  | none => rfl
+  | some b => cases b <;> simp [justOfPb]
+
+/-- one block: what `protobufToBlockData` reads from what `blockDataToProtobuf` wrote -/
+theorem blockData_ofPb_toPb (d : BlockDataM) (h : d.wf) : BlockDataM.ofPb d.toPb = some d.norm := by
+  obtain ⟨hash, hdr, bdy, rc, mq, js⟩ := d
+  obtain ⟨h1, h2, h3⟩ := h
+  simp only at h1 h2 h3
+  have e1 : bytesToHash hash = hash := by simp [bytesToHash, h1]
+  simp only [BlockDataM.ofPb, BlockDataM.toPb, BlockDataM.norm, headerOfPb_toPb hdr h2,
+    bodyOfPb_toPb bdy h3, e1, justOfPb_toPb, optOfBytes_getD]
+
+theorem optMapM_map_map {α β γ : Type} (f : β → Option γ) (g : α → β) (k : α → γ) (l : List α)
+    (h : ∀ a ∈ l, f (g a) = some (k a)) : optMapM f (l.map g) = some (l.map k) := by
+  induction l with
+  | nil => rfl
+  | cons a as ih =>
+    simp only [List.map_cons, optMapM, h a (by simp), ih (fun x hx => h x (by simp [hx]))]
+
+/-- **BlockResponseMessage round trip** (block.go `Encode` then `Decode`): every block comes back
+    up to what the wire format cannot express — an empty body / receipt / message queue reads
+    back as nil; an empty justification survives through `is_empty_justification` -/
+theorem C14_response_message_roundtrip (ds : List BlockDataM) (h : ∀ d ∈ ds, d.wf) :
+    responseDecode (responseEncode ds) = some (ds.map BlockDataM.norm) := by
+  simp only [responseDecode, responseEncode, Proto.BlockResponse.decode_encode]
+  exact optMapM_map_map BlockDataM.ofPb BlockDataM.toPb BlockDataM.norm ds
+    (fun d hd => blockData_ofPb_toPb d (h d hd))
+
+/-- the hypotheses are satisfiable: a block with header, body and an empty justification -/
+example : (⟨List.replicate 32 1, some hdrOk, some [[1, 2], []], none, some [9], some []⟩ : BlockDataM).wf := by
+  refine ⟨by decide, ?_, ?_⟩
+  · intro h hh; cases hh; constructor <;> decide
+  · intro es he; cases he; constructor <;> decide
+
 /-! ## 7. variant index tables (tied to the Go `IndexValue` / `ValueAt` tables by `idx` cases) -/
 
 theorem C14_digest_indices :
